@@ -113,6 +113,7 @@ struct Ctx {
     path_rw: Vec<(Vec<String>, Vec<String>)>, // prefix rewrite on paths
     unwrap_types: Vec<String>,                // `W<T, ..>` => `T`  (R6 identification of forwarding wrappers)
     type_rw: Vec<(String, String)>,           // whole-type rewrite, matched on the squashed token text
+    expr_rw: Vec<(String, String)>,           // whole-expression rewrite (R6: instantiation of abstract constants)
     method_rw: Vec<(String, String)>,         // method-name rewrite  .from(  => .vx_from(
     files: HashMap<String, syn::File>,
     file_text: HashMap<String, String>,
@@ -294,9 +295,11 @@ struct Rw<'a> {
     ctx: &'a Ctx,
     log: &'a mut Log,
     loops: usize,
+    closures: usize,
     tmp: usize,
     err: Option<String>,
     no_ufcs: bool,
+    ufcs_calls: bool,
     after_pats: Vec<String>,   // squashed statement texts after which an `after["..."]` anchor is placed
     after_hits: Vec<usize>,    // how often each pattern matched
 }
@@ -565,6 +568,17 @@ impl<'a> VisitMut for Rw<'a> {
                 }
             }
         }
+        // R6: whole-expression instantiation (paths to abstract constants, e.g. `P::BaseField::ONE` => `F::one()`)
+        if matches!(e, Expr::Path(_) | Expr::Call(_)) && !self.ctx.expr_rw.is_empty() {
+            let txt = squash(&e.to_token_stream().to_string());
+            for (from, to) in &self.ctx.expr_rw {
+                if *from == txt {
+                    self.log.add("R6", "expr", format!("{txt} => {to}"));
+                    *e = syn::parse_str(to).unwrap_or_else(|er| die(&format!("expr rewrite target `{to}`: {er}")));
+                    return;
+                }
+            }
+        }
         // macros
         if let Expr::Macro(m) = e {
             if let Some(r) = self.expand_macro(&m.mac) {
@@ -611,10 +625,32 @@ impl<'a> VisitMut for Rw<'a> {
             }
             return;
         }
+        // closures: number them, make the body a block carrying head/end markers
+        if let Expr::Closure(c) = e {
+            let k = self.closures;
+            self.closures += 1;
+            self.visit_expr_mut(&mut c.body);
+            let body = (*c.body).clone();
+            let mut blk: Block = match body {
+                Expr::Block(b) if b.label.is_none() => b.block,
+                other => syn::parse2(quote!({ #other })).unwrap(),
+            };
+            let tail_is_value = matches!(blk.stmts.last(), Some(Stmt::Expr(_, None)));
+            if tail_is_value {
+                let t = blk.stmts.pop().unwrap();
+                blk.stmts.push(marker("__vx_closure_end", Some(k)));
+                blk.stmts.push(t);
+            } else {
+                blk.stmts.push(marker("__vx_closure_end", Some(k)));
+            }
+            blk.stmts.insert(0, marker("__vx_closure_head", Some(k)));
+            *c.body = Expr::Block(syn::ExprBlock { attrs: vec![], label: None, block: blk });
+            return;
+        }
         // R4: a op &b  =>  core::ops::Op::op(a, &b)
         if !self.no_ufcs {
             if let Expr::Binary(b) = e {
-                if matches!(&*b.right, Expr::Reference(_)) {
+                if matches!(&*b.right, Expr::Reference(_)) || (self.ufcs_calls && matches!(&*b.right, Expr::Call(_) | Expr::MethodCall(_))) {
                     let path = match b.op {
                         syn::BinOp::Add(_) => Some(quote!(core::ops::Add::add)),
                         syn::BinOp::Sub(_) => Some(quote!(core::ops::Sub::sub)),
@@ -728,6 +764,7 @@ struct UnitSpec {
     external_body: bool,
     keep_pub: bool,
     no_ufcs: bool,
+    ufcs_calls: bool,
     spec: String,
     anchors: BTreeMap<String, String>,
     open_attrs: String, // extra attributes to print before the fn
@@ -771,7 +808,7 @@ fn gen_unit(ctx: &mut Ctx, u: &UnitSpec, report: &mut Vec<serde_json::Value>) ->
 
     let after_pats: Vec<String> = u.anchors.keys().filter_map(|k| k.strip_prefix("after[\"").and_then(|r| r.strip_suffix("\"]")).map(|p| squash(p))).collect();
     let n_after = after_pats.len();
-    let mut rw = Rw { ctx, log: &mut log, loops: 0, tmp: 0, err: None, no_ufcs: u.no_ufcs, after_pats, after_hits: vec![0; n_after] };
+    let mut rw = Rw { ctx, log: &mut log, loops: 0, closures: 0, tmp: 0, err: None, no_ufcs: u.no_ufcs, ufcs_calls: u.ufcs_calls, after_pats, after_hits: vec![0; n_after] };
     // fn-level attributes
     match rw.strip_attrs(&mut fp.attrs, "fn") {
         Ok(true) => {},
@@ -813,6 +850,7 @@ fn gen_unit(ctx: &mut Ctx, u: &UnitSpec, report: &mut Vec<serde_json::Value>) ->
         fp.block.stmts.insert(0, syn::parse2(quote!( let mut vx_self = self; )).unwrap());
         rw.log.add("R10", "mut-self", "`mut self` => `self` + `let mut vx_self = self;`".into());
     }
+    let nclosures = rw.closures;
     let nloops = rw.loops;
     let after_pats_final = rw.after_pats.clone();
     let after_hits_final = rw.after_hits.clone();
@@ -948,6 +986,15 @@ fn gen_unit(ctx: &mut Ctx, u: &UnitSpec, report: &mut Vec<serde_json::Value>) ->
         let bf = u.anchors.get(&format!("loop[{k}].before")).cloned().unwrap_or_default();
         text = text.replace(&format!("__vx_loop_before!({k});"), bf.trim_end());
     }
+    for k in 0..nclosures {
+        let sp = u.anchors.get(&format!("closure[{k}].spec")).cloned().unwrap_or_default();
+        let b = u.anchors.get(&format!("closure[{k}].begin")).cloned().unwrap_or_default();
+        let e = u.anchors.get(&format!("closure[{k}].end")).cloned().unwrap_or_default();
+        let re = Regex::new(&format!(r"\{{\s*__vx_closure_head!\({k}\);")).unwrap();
+        let rep = if sp.trim().is_empty() { format!("{{\n{b}") } else { format!("{}\n{{\n{b}", sp.trim_end()) };
+        text = re.replace(&text, regex::NoExpand(&rep)).to_string();
+        text = text.replace(&format!("__vx_closure_end!({k});"), e.trim_end());
+    }
     for (pi, pat) in after_pats_final.iter().enumerate() {
         if after_hits_final[pi] != 1 {
             die(&format!("anchor-lost: unit {} `after[..]` pattern `{}` matched {} statements (need exactly 1)", u.name, pat, after_hits_final[pi]));
@@ -958,6 +1005,7 @@ fn gen_unit(ctx: &mut Ctx, u: &UnitSpec, report: &mut Vec<serde_json::Value>) ->
     for key in u.anchors.keys() {
         let ok = key == "fn.begin"
             || key.starts_with("after[")
+            || (0..nclosures).any(|k| [format!("closure[{k}].spec"), format!("closure[{k}].begin"), format!("closure[{k}].end")].contains(key))
             || key == "fn.end"
             || (0..nloops).any(|k| {
                 [format!("loop[{k}].inv"), format!("loop[{k}].begin"), format!("loop[{k}].end"), format!("loop[{k}].after"), format!("loop[{k}].before")].contains(key)
@@ -988,7 +1036,7 @@ fn gen_unit(ctx: &mut Ctx, u: &UnitSpec, report: &mut Vec<serde_json::Value>) ->
     format!("// ---- unit {} <- {}:{}-{} ----\n{}{}// ---- end unit {} ----\n", u.name, u.file, fp.span.0, fp.span.1, head, text, u.name)
 }
 
-fn gen_item(ctx: &mut Ctx, file: &str, sel: &str, report: &mut Vec<serde_json::Value>) -> String {
+fn gen_item(ctx: &mut Ctx, file: &str, sel: &str, strip_generics: bool, report: &mut Vec<serde_json::Value>) -> String {
     let found = select(ctx, file, sel);
     let mut log = Log::default();
     let it = match found {
@@ -1029,7 +1077,13 @@ fn gen_item(ctx: &mut Ctx, file: &str, sel: &str, report: &mut Vec<serde_json::V
     for d in dropped {
         log.add("R1", "drop-attr", d);
     }
-    let mut rw = Rw { ctx, log: &mut log, loops: 0, tmp: 0, err: None, no_ufcs: false, after_pats: vec![], after_hits: vec![] };
+    if strip_generics {
+        if let Item::Struct(st) = &mut it {
+            log.add("R6", "strip-generics", format!("{}", st.generics.to_token_stream()));
+            st.generics = Default::default();
+        }
+    }
+    let mut rw = Rw { ctx, log: &mut log, loops: 0, closures: 0, tmp: 0, err: None, no_ufcs: false, ufcs_calls: false, after_pats: vec![], after_hits: vec![] };
     rw.visit_item_mut(&mut it);
     let toks = it.to_token_stream().to_string();
     let sha = format!("{:x}", Sha256::digest(toks.as_bytes()));
@@ -1106,6 +1160,7 @@ fn main() {
         path_rw: vec![],
         unwrap_types: vec![],
         type_rw: vec![],
+        expr_rw: vec![],
         method_rw: vec![],
         files: HashMap::new(),
         file_text: HashMap::new(),
@@ -1225,6 +1280,11 @@ fn main() {
                     ctx.path_rw.clear();
                     ctx.method_rw.clear();
                     ctx.type_rw.clear();
+                    ctx.expr_rw.clear();
+                },
+                "expr" => {
+                    let (l, r) = rest.split_once("=>").unwrap_or_else(|| die("expr: need =>"));
+                    ctx.expr_rw.push((squash(l), r.trim().to_string()));
                 },
                 "unwrap_type" => {
                     ctx.unwrap_types.push(rest.trim().to_string());
@@ -1254,7 +1314,8 @@ fn main() {
                         out.push_str(a);
                         out.push('\n');
                     }
-                    out.push_str(&gen_item(&mut ctx, &file, &sel, &mut report));
+                    let sg = kv.get("strip_generics").is_some();
+                    out.push_str(&gen_item(&mut ctx, &file, &sel, sg, &mut report));
                 },
                 "unit" => {
                     let kv = parse_kv(rest);
@@ -1267,6 +1328,7 @@ fn main() {
                     u.external_body = kv.get("mode").map(|m| m == "external_body").unwrap_or(false);
                     u.keep_pub = kv.get("vis").map(|m| m == "pub").unwrap_or(false);
                     u.no_ufcs = kv.get("ufcs").map(|m| m == "off").unwrap_or(false);
+                    u.ufcs_calls = kv.get("ufcs").map(|m| m == "calls").unwrap_or(false);
                     u.open_attrs = kv.get("attrs").cloned().unwrap_or_default();
                     u.self_ty = kv.get("self_ty").cloned();
                     u.generics = kv.get("generics").cloned();
